@@ -154,7 +154,7 @@ func (p *Prog) Info(fn *ssa.Function) *FnInfo {
 func fieldKey(st types.Type, idx int) string {
 	st = deref(st)
 	if s, ok := st.Underlying().(*types.Struct); ok && idx < s.NumFields() {
-		return types.TypeString(st, nil) + "." + s.Field(idx).Name()
+		return types.TypeString(st, nil) + "." + fieldName(st, idx)
 	}
 	return fmt.Sprintf("%s.#%d", st, idx)
 }
@@ -386,7 +386,13 @@ func relQual(p *types.Package) string { return relPkg(p.Path()) }
 func fieldName(t types.Type, idx int) string {
 	t = deref(t)
 	if s, ok := t.Underlying().(*types.Struct); ok && idx < s.NumFields() {
-		return s.Field(idx).Name()
+		n := s.Field(idx).Name()
+		if len(fieldAlias) > 0 {
+			if old, ok := fieldAlias[types.TypeString(t, nil)+"."+n]; ok {
+				return old
+			}
+		}
+		return n
 	}
 	return fmt.Sprintf("#%d", idx)
 }
